@@ -278,6 +278,10 @@ Lemma pres_try_store_intermediate_key e ik sk : pres (try_store_intermediate_key
 Proof. unfold try_store_intermediate_key. pres_go. Qed.
 Hint Resolve pres_load_latest_or_create_system_key pres_try_store_intermediate_key : pres.
 
+Lemma pres_create_ik_with_sk e sk : pres (create_ik_with_sk e sk).
+Proof. unfold create_ik_with_sk. pres_go. Qed.
+Hint Resolve pres_create_ik_with_sk : pres.
+
 Lemma pres_create_intermediate_key e : pres (create_intermediate_key e).
 Proof.
   unfold create_intermediate_key. apply pres_bind.
